@@ -275,15 +275,21 @@ def replay_transition(t: dict, read_each: bool = False, ask_each: bool = False) 
     rec = U.recompute()
     exp_res = t["res"]
     # ---- C09: the call's outcome and the graph
+    graph_ok = (sorted(g["nodes"]) == sorted(t["nodes"]) and as_set(g["links"]) == as_set(t["links"])
+                and as_set(g["orig"]) == as_set(t["orig"]) and as_set(g["dest"]) == as_set(t["dest"]))
+    # after a call that failed, the model's graph is a guess at the library's partial effects; where the guess is wrong
+    # (another, equally legitimate, partial effect), what a LATER call does is not judged against the model
+    guess_wrong = failed_before and not graph_ok
     if exp_res[0] == "error":
         if last[0] != "error":
             out["c09"].append(["malformed call accepted", c])
     elif last[0] == "error":
-        out["c09"].append(["call raised " + str(last[1]), c])
+        if guess_wrong:
+            out["drift"].append(["call raised after a failing call whose partial effects differ from the model's", c, str(last[1])])
+        else:
+            out["c09"].append(["call raised " + str(last[1]), c])
     if g["non_nodes"]:
         out["c09"].append(["non-node object is a graph node", g["non_nodes"]])
-    graph_ok = (sorted(g["nodes"]) == sorted(t["nodes"]) and as_set(g["links"]) == as_set(t["links"])
-                and as_set(g["orig"]) == as_set(t["orig"]) and as_set(g["dest"]) == as_set(t["dest"]))
     if not graph_ok:
         what = {"nodes": [g["nodes"], t["nodes"]], "links": [g["links"], t["links"]], "orig": [g["orig"], t["orig"]],
                 "dest": [g["dest"], t["dest"]]}
@@ -297,10 +303,11 @@ def replay_transition(t: dict, read_each: bool = False, ask_each: bool = False) 
     if c[0] == "read" and last[0] == "value":
         if not same_dict(last[1], rec[c[1]]):
             out["c08"].append(["read returned a value that differs from recomputation", c[1], last[1], rec[c[1]]])
-        if graph_ok and not same_dict(last[1], exp_res[1]):
+        # (with equal names a by-name lookup depends on the insertion ORDER; after a failing call the model's order is a guess)
+        if graph_ok and not failed_before and not same_dict(last[1], exp_res[1]):
             out["c08"].append(["read returned a value that differs from the specification", c[1], last[1], exp_res[1]])
     if c[0] in ("in_links", "out_links"):
-        if last[0] != "value" or (graph_ok and sorted(map(tuple, last[1])) != sorted(map(tuple, exp_res[1]))):
+        if (last[0] != "value" and not guess_wrong) or (last[0] == "value" and graph_ok and sorted(map(tuple, last[1])) != sorted(map(tuple, exp_res[1]))):
             out["c08"].append(["per-node view differs from the specification", c, last, exp_res])
     cached_before = U.cached()
     if graph_ok and not read_each and not ask_each and sorted(cached_before) != sorted(t["cached"]):   # (reads after every call memoise everything)
@@ -309,7 +316,7 @@ def replay_transition(t: dict, read_each: bool = False, ask_each: bool = False) 
     for k in LOOKUPS:
         if not (isinstance(allr[k], list) and (not allr[k] or allr[k][0] != "error")) or not same_dict(allr[k], rec[k]):
             out["c08"].append(["lookup differs from recomputation", k, allr[k], rec[k]])
-        elif graph_ok and not same_dict(allr[k], t["lookups"][k]):
+        elif graph_ok and not failed_before and not same_dict(allr[k], t["lookups"][k]):
             out["c08"].append(["lookup differs from the specification", k, allr[k], t["lookups"][k]])
     vw = U.views()
     if vw["err"]:
